@@ -144,6 +144,7 @@ class Ctx:
             negative_controls=self.negative,
             known_findings_hit=self.known_hits,
             notes=self.notes,
+            violation_keys=sorted({v["key"] for v in self.violations}),
             status=status,
         )
         cov.update(self.extra)
@@ -185,4 +186,10 @@ def run_check(prop: str, tier: str, seed: int, fn):
           f"traces={ctx.traces} evaluations={ctx.evaluations} nontrivial={len(ctx.nontrivial)} "
           f"negative_controls={len(ctx.negative)} known={sum(ctx.known_hits.values())} "
           f"violations={len(ctx.violations)} wall={wall:.1f}s", flush=True)
+    if ctx.violations:
+        keys = {}
+        for v in ctx.violations:
+            keys[v["key"]] = keys.get(v["key"], 0) + 1
+        for k, n in sorted(keys.items()):
+            print(f"  violation key {k}: {n}", flush=True)
     return 1 if ctx.violations else 0
